@@ -57,6 +57,10 @@ var c12Failing = []string{
 	`{{ "x" | raw | upper }}`,                   // writer not last
 	`{{ -"a" }}`,                                // unary minus on a string
 	`{{ isset(1 + 1, upper) ? nope : nope }}`,   // failure inside a ternary
+	`{{ mm.missing.name }}`,                     // missing map key in the middle of a chain
+	`{{ mm.missing.name.deeper }}`,              // ... two steps before the end
+	`{{ arr[1:] }}`,                             // slicing an array held by value
+	`{{ arr[0:2] }}`,
 }
 
 func c12Vars(n int64) VarMap {
@@ -65,6 +69,8 @@ func c12Vars(n int64) VarMap {
 	vars.Set("s", []int{10, 20, 30})
 	vars.Set("str", "abc")
 	vars.Set("m", map[string]int{"a": 1})
+	vars.Set("mm", map[string]map[string]string{"present": {"name": "n"}})
+	vars.Set("arr", [3]int{1, 2, 3})
 	vars.Set("n", n)
 	ch := make(chan int)
 	close(ch)
